@@ -84,6 +84,7 @@ MUTANTS["C06"] = [
     ("interface-default-off", "annet/annlib/rbparser/acl.py", '[raw_rule.startswith("interface")]', '[False]'),
     ("params-start-at-blank-percent-only", "annet/annlib/rbparser/syntax.py", '        index = raw_rule.index("%")', '        index = raw_rule.index(" %")'),
     ("single-acl-match-forgets-inherited-globals", "annet/annlib/patching.py", "        return _select_match(matches, rules)\n    return (None, None)  # (match, children_rules)", "        if len(matches) == 1 and matches[0][0][1] and matches[0][0][0][\"type\"] != \"ignore\":\n            m_ = {\"attrs\": copy.deepcopy(matches[0][0][0][\"attrs\"])}\n            m_.update(matches[0][1])\n            return (m_, matches[0][0][0][\"children\"])\n        return _select_match(matches, rules)\n    return (None, None)  # (match, children_rules)"),
+    ("compiled-acl-shared-by-vendors-with-one-negation-word", "annet/annlib/rbparser/acl.py", "@functools.lru_cache()\ndef compile_acl_text(text, vendor, allow_ignore=False):\n    return _compile_acl(", "def compile_acl_text(text, vendor, allow_ignore=False):\n    key = (text, registry_connector.get()[vendor].reverse, allow_ignore)\n    if key not in _VF_ACLS:\n        _VF_ACLS[key] = _compile_acl_text(text, vendor, allow_ignore)\n    return _VF_ACLS[key]\n\n\n_VF_ACLS = {}\n\n\ndef _compile_acl_text(text, vendor, allow_ignore=False):\n    return _compile_acl("),
 ]
 
 MUTANTS["C02"] = [
